@@ -37,6 +37,7 @@ META = {
         "equal across types - True/1/1.0, False/0/0.0/-0.0 - must not influence each other). states/transitions "
         "= those of (b) plus one state per delivery observed in (a)."
         " Long-lived kicker: every history up to 4 (thorough 6) calls over {kiq, with_labels(a=1), with_labels(a=2.5), with_labels(a=bytes) (same key, other value and type), with_labels(b), with_task_id, with_broker} on ONE kicker object; each kiq sends what the calls so far add up to."
+        " Formatter dimension: the default ProxyFormatter (JSON / pickle serializer), the bundled JSONFormatter and an application-defined TaskiqFormatter."
     ),
     "assumptions": ["ORJSON / MsgPack / CBOR serializers cannot be imported in this image and are not covered"],
     "required_counters": ["label_cases", "deliveries_checked", "kicker_sequences", "requeues", "retries", "send_pairs"],
@@ -120,6 +121,27 @@ def run_label_case(labels: Dict[str, Any], where: str, ser: str, seq: Tuple[str,
     b.result_backend = RB()
     if ser == "pickle":
         b.serializer = PickleSerializer()
+    elif ser == "json-formatter":
+        from taskiq.formatters.json_formatter import JSONFormatter
+
+        b = b.with_formatter(JSONFormatter())
+    elif ser == "user-formatter":
+        import pickle as _pickle
+
+        from taskiq.abc.formatter import TaskiqFormatter
+        from taskiq.message import BrokerMessage, TaskiqMessage
+
+        class UserFormatter(TaskiqFormatter):
+            """A formatter written by the application, as docs/guide/message-format.md describes."""
+
+            def dumps(self, message: Any) -> Any:
+                return BrokerMessage(task_id=message.task_id, task_name=message.task_name,
+                                     message=_pickle.dumps(message.model_dump()), labels=message.labels)
+
+            def loads(self, message: bytes) -> Any:
+                return TaskiqMessage.model_validate(_pickle.loads(message))
+
+        b = b.with_formatter(UserFormatter())
     b.add_middlewares(Spy(), SimpleRetryMiddleware(default_retry_count=10, default_retry_label=True, no_result_on_retry=True))
 
     async def job(ctx: Context = TaskiqDepends()) -> str:
@@ -162,7 +184,13 @@ def run_label_case(labels: Dict[str, Any], where: str, ser: str, seq: Tuple[str,
     acc.outcome(("labels", tuple(type(v).__name__ for v in labels.values()), seq))
     if errors:
         first = seq[len(seen_ctx) - 1] if 0 < len(seen_ctx) <= len(seq) else "send"
-        acc.violation(f"delivery-raised-during-{first}", f"{errors[0]} for {desc}", rp)
+        key = f"delivery-raised-during-{first}"
+        lone = any(isinstance(v, str) and any(0xD800 <= ord(c) <= 0xDFFF for c in v) for v in labels.values())
+        if ser == "json-formatter" and lone and first == "send" and errors[0].startswith("SendTaskError"):
+            # known finding D13: the bundled JSONFormatter dumps with pydantic's JSON encoder, which refuses a
+            # str holding a lone surrogate (the default formatter + JSON serializer escapes it)
+            key = "D13-jsonformatter-lone-surrogate-label"
+        acc.violation(key, f"{errors[0]} for {desc}", rp)
         return
     if len(seen_ctx) != want_n:
         step = seq[len(seen_ctx) - 1] if 0 < len(seen_ctx) <= len(seq) else "first"
@@ -359,6 +387,11 @@ def label_cases(tier: str) -> List[Tuple[int, str, str, int]]:
                     if tier == "quick" and len(dicts[di]) == 2 and ser == "pickle" and len(seqs[si]) == 2:
                         continue
                     out.append((di, where, ser, si))
+    # brokers with a formatter other than the default one (bundled JSONFormatter, an application's own)
+    for di in range(len(dicts)):
+        for ser in ("json-formatter", "user-formatter"):
+            for si in range(min(3 if tier == "quick" else len(seqs), len(seqs))):
+                out.append((di, "kicker" if di % 2 else "task", ser, si))
     return out
 
 
